@@ -132,6 +132,9 @@ func worker(args []string) {
 	out := bufio.NewWriter(os.NewFile(uintptr(dupStdout()), "report"))
 	props.Silence()
 	defer props.CleanupScratch()
+	if !sim.RaceEnabled {
+		limitAddressSpace(6 << 30)
+	}
 	emit := func(m msg) {
 		b, _ := json.Marshal(m)
 		out.Write(b)
@@ -171,9 +174,9 @@ func worker(args []string) {
 		cur.Lock()
 		cur.i, cur.since = i, time.Now()
 		cur.Unlock()
-		if eng.Race {
-			emit(msg{T: "start", I: i})
-		}
+		// announce the run (a short raw line; a worker that dies of a fatal runtime error is attributed to it)
+		fmt.Fprintf(out, "s %d\n", i)
+		out.Flush()
 		rs := sim.RunSeed(*seed, eng.Name, i)
 		t := sim.NewT(rs)
 		v := runGuarded(eng, t, *tier)
@@ -446,6 +449,12 @@ func driver(args []string) int {
 			sc.Buffer(make([]byte, 1<<20), 1<<28)
 			for sc.Scan() {
 				var m msg
+				if line := sc.Bytes(); len(line) > 2 && line[0] == 's' && line[1] == ' ' {
+					if v, err := strconv.Atoi(string(line[2:])); err == nil {
+						res.lastI = v
+					}
+					continue
+				}
 				if err := json.Unmarshal(sc.Bytes(), &m); err != nil {
 					continue
 				}
@@ -683,7 +692,7 @@ func crossProcessDigests(eng *props.Engine, tier string, seed uint64, runs int, 
 // postMortem turns a crashed worker (fatal runtime error in the library, e.g. concurrent map
 // access or stack overflow) into a violation when the crash can be attributed to a run.
 var postMortem = func(eng *props.Engine, prop string, seed uint64, lastI int, exit int, stderr string) *violRec {
-	if exit == 4 || exit == 2 {
+	if exit == 4 || (exit == 2 && !strings.Contains(stderr, "fatal error:")) {
 		return nil
 	}
 	if strings.Contains(stderr, "fatal error:") || strings.Contains(stderr, "goroutine stack exceeds") {
@@ -693,6 +702,8 @@ var postMortem = func(eng *props.Engine, prop string, seed uint64, lastI int, ex
 			kind = "concurrent-map-access"
 		case strings.Contains(stderr, "stack exceeds") || strings.Contains(stderr, "stack overflow"):
 			kind = "stack-overflow"
+		case strings.Contains(stderr, "out of memory") || strings.Contains(stderr, "cannot allocate"):
+			kind = "out-of-memory"
 		case strings.Contains(stderr, "all goroutines are asleep"):
 			kind = "deadlock"
 		}
